@@ -693,7 +693,7 @@ impl Prop for C14 {
         false
     }
     fn n_cases(&self, tier: Tier) -> u64 {
-        tier.pick(12_000, 500_000)
+        tier.pick(150_000, 500_000)
     }
     fn time_cap_s(&self, tier: Tier) -> u64 {
         tier.pick(100, 900)
